@@ -63,6 +63,80 @@ theorem mapE_length {ε α β} (f : α → Except ε β) (l : List α) (out : Li
         subst h
         simp only [List.length_cons, ih bs hr]
 
+/-- `mapE` fails with `e` iff some element fails with `e` and every element before it succeeds -/
+theorem mapE_error_iff {ε α β} (f : α → Except ε β) (l : List α) (e : ε) :
+    mapE f l = .error e ↔
+      ∃ pre x post, l = pre ++ x :: post ∧ (∀ y, y ∈ pre → ∃ b, f y = .ok b) ∧ f x = .error e := by
+  induction l with
+  | nil =>
+    simp only [mapE]
+    constructor
+    · intro h; cases h
+    · rintro ⟨pre, x, post, h, _⟩; cases pre <;> simp at h
+  | cons a as ih =>
+    simp only [mapE]
+    cases ha : f a with
+    | error e' =>
+      dsimp only
+      constructor
+      · intro h
+        simp only [Except.error.injEq] at h
+        subst h
+        exact ⟨[], a, as, rfl, by simp, ha⟩
+      · rintro ⟨pre, x, post, h, hpre, hx⟩
+        cases pre with
+        | nil =>
+          simp only [List.nil_append, List.cons.injEq] at h
+          rw [← h.1, ha] at hx
+          simp only [Except.error.injEq] at hx ⊢
+          exact hx
+        | cons p ps =>
+          simp only [List.cons_append, List.cons.injEq] at h
+          obtain ⟨b, hb⟩ := hpre p List.mem_cons_self
+          rw [← h.1, ha] at hb
+          cases hb
+    | ok b =>
+      cases hr : mapE f as with
+      | error e' =>
+        dsimp only
+        simp only [Except.error.injEq]
+        constructor
+        · intro h
+          subst h
+          obtain ⟨pre, x, post, h1, h2, h3⟩ := ih.mp hr
+          refine ⟨a :: pre, x, post, by simp [h1], ?_, h3⟩
+          intro y hy
+          rcases List.mem_cons.mp hy with rfl | hy
+          · exact ⟨b, ha⟩
+          · exact h2 y hy
+        · rintro ⟨pre, x, post, h, hpre, hx⟩
+          cases pre with
+          | nil =>
+            simp only [List.nil_append, List.cons.injEq] at h
+            rw [← h.1, ha] at hx
+            cases hx
+          | cons p ps =>
+            simp only [List.cons_append, List.cons.injEq] at h
+            have := ih.mpr ⟨ps, x, post, h.2, fun y hy => hpre y (List.mem_cons_of_mem _ hy), hx⟩
+            rw [hr] at this
+            simp only [Except.error.injEq] at this
+            exact this
+      | ok bs =>
+        dsimp only
+        constructor
+        · intro h; cases h
+        · rintro ⟨pre, x, post, h, hpre, hx⟩
+          cases pre with
+          | nil =>
+            simp only [List.nil_append, List.cons.injEq] at h
+            rw [← h.1, ha] at hx
+            cases hx
+          | cons p ps =>
+            simp only [List.cons_append, List.cons.injEq] at h
+            have := ih.mpr ⟨ps, x, post, h.2, fun y hy => hpre y (List.mem_cons_of_mem _ hy), hx⟩
+            rw [hr] at this
+            cases this
+
 /-- what a worker leaves behind, in terms of `mapE` over its records: the header only from record 0 -/
 def workerOut {η} (start : Nat) (ps : List (η × List Row)) : Option η × List (List Row) :=
   ((if start = 0 then (ps.head?).map (fun p => p.1) else none), ps.map (fun p => p.2))
